@@ -59,6 +59,11 @@ func CheckBytesCompare(pass *analysis.Pass) (any, error) {
 		default:
 			panic(fmt.Sprintf("unexpected token %v", tok))
 		}
+		if !code.PackageNameResolves(pass, node.Pos(), "bytes", "bytes") {
+			// the replacement spells "bytes"; it has to denote the package here
+			report.Report(pass, node, fmt.Sprintf("should use %sbytes.Equal(%s) instead", prefix, args), report.FilterGenerated())
+			continue
+		}
 		report.Report(pass, node, fmt.Sprintf("should use %sbytes.Equal(%s) instead", prefix, args), report.FilterGenerated(), report.Fixes(fix))
 	}
 	return nil, nil
